@@ -15,19 +15,20 @@ func init() {
 }
 
 const (
-	c08Planner = "app/server/gateway/bucket_planner.go"
-	c08Exec    = "app/server/gateway/bucket_exec.go"
-	c08Gateway = "app/server/gateway/gateway.go"
-	c08Native  = "app/server/gateway/filter_native.go"
-	c08Filter  = "app/server/gateway/filter.go"
-	c08Bucket  = "app/core/hydra/swamp/bucket/bucket.go"
-	c08Canon   = "app/core/hydra/swamp/bucket/valuecanon/valuecanon.go"
+	c08Planner  = "app/server/gateway/bucket_planner.go"
+	c08Exec     = "app/server/gateway/bucket_exec.go"
+	c08Gateway  = "app/server/gateway/gateway.go"
+	c08Native   = "app/server/gateway/filter_native.go"
+	c08Filter   = "app/server/gateway/filter.go"
+	c08Bucket   = "app/core/hydra/swamp/bucket/bucket.go"
+	c08Canon    = "app/core/hydra/swamp/bucket/valuecanon/valuecanon.go"
+	c08BeaconGo = "app/core/hydra/swamp/beacon/beacon.go"
 )
 
 var c08Tris = []string{"excludesSpecialPaths", "planOrBypassOnSubGroups", "planShape", "scanEqCanonical",
 	"bucketPagingAfterFilter", "scanPagingAfterFilter", "labelReattach", "pagedQueriesBypass", "bucketChecksAttr",
 	"lookupInDedupes", "unionDedupes", "bucketWindowTimeOnly", "execPreconditions", "extractorsStandard", "canonStandard", "scanLeafStandard",
-	"bucketNotifyInsert", "bucketNotifyUpdate", "bucketNotifyDelete", "bucketPendingReplayed", "readerDrainsInFlight", "bucketLifecycleStandard"}
+	"bucketNotifyInsert", "bucketNotifyUpdate", "bucketNotifyDelete", "bucketPendingReplayed", "readerDrainsInFlight", "bucketLifecycleStandard", "windowConversionAlike"}
 
 var c08OpNames = map[string][2]string{ // proto name → (Lean constructor, show)
 	"hydrapb.Relational_EQUAL": {".eq", "eq"}, "hydrapb.Relational_NOT_EQUAL": {".ne", "ne"},
@@ -219,6 +220,7 @@ func c08ExecFacts(fs *Facts, f *File) {
 	col := f.Func("", "collectBucketCandidates")
 	c07Canon(col, []string{"sw", "hints", "h", "seen", "out", "h", "hits", "t", "k", "dup"})
 	c07Canon(f.Func("", "applyTimeRange"), []string{"candidates", "beaconType", "fromTime", "toTime", "fromNs", "toNs", "out", "t", "ts"})
+	c07Canon(f.Func("", "applyTimeRange"), []string{"candidates", "beaconType", "fromTime", "toTime", "fromNs", "toNs", "hasFrom", "hasTo", "empty", "out", "t", "ts"})
 	c07Canon(f.Func("", "beaconTimeOf"), []string{"t", "beaconType"})
 	c07Canon(pre, []string{"beaconType"})
 	if col != nil {
@@ -239,6 +241,27 @@ func c08ExecFacts(fs *Facts, f *File) {
 	bt := f.Func("", "beaconTimeOf")
 	if tr != nil && sc != nil && bt != nil && strings.HasSuffix(f.Str(bt.Body), "} return 0 }") && !strings.Contains(f.Str(sc.Body), "== 0") {
 		src := f.Str(tr.Body)
+		// the conversion of the two bounds: as they are (UnixNano wraps outside 1677…2262) or through
+		// beacon.WindowNanos — it has to be the one the index read of the scan route uses
+		const rawConv = "var fromNs, toNs int64 if fromTime != nil { fromNs = fromTime.UnixNano() } if toTime != nil { toNs = toTime.UnixNano() }"
+		const chkConv = "fromNs, toNs, hasFrom, hasTo, empty := beacon.WindowNanos(fromTime, toTime) if empty { return candidates[:0] } if !hasFrom { fromTime = nil } if !hasTo { toTime = nil }"
+		bucketChecked := strings.Contains(src, chkConv) && !strings.Contains(src, "UnixNano()")
+		bucketRaw := strings.Contains(src, rawConv)
+		src = strings.Replace(strings.Replace(src, rawConv, "var fromNs", 1), chkConv, "var fromNs", 1)
+		if fb, err := Load(c08BeaconGo); err == nil {
+			if ft := fb.Func("beacon", "findTimeRangeBounds"); ft != nil {
+				c07Canon(ft, []string{"b", "fromTime", "toTime", "n", "fromNano", "toNano", "isAscending", "startIdx", "endIdx",
+					"l", "r", "m", "l", "r", "m", "l", "r", "m", "l", "r", "m"})
+				c07Canon(ft, []string{"b", "fromTime", "toTime", "n", "fromNano", "toNano", "hasFrom", "hasTo", "empty", "isAscending", "startIdx", "endIdx",
+					"l", "r", "m", "l", "r", "m", "l", "r", "m", "l", "r", "m"})
+				scanRaw := fb.Contains(ft.Body, "if fromTime != nil { fromNano = fromTime.UTC().UnixNano() } if toTime != nil { toNano = toTime.UTC().UnixNano() }")
+				scanChecked := fb.Contains(ft.Body, "fromNano, toNano, hasFrom, hasTo, empty := WindowNanos(fromTime, toTime) if empty { return 0, -1 } if !hasFrom { fromTime = nil } if !hasTo { toTime = nil }") &&
+					!fb.Contains(ft.Body, "UnixNano()")
+				if (bucketRaw && scanRaw && !bucketChecked && !scanChecked) || (bucketChecked && scanChecked && !bucketRaw && !scanRaw) {
+					fs.Tri("windowConversionAlike", Yes, c08At(c08Exec, f, tr))
+				}
+			}
+		}
 		loop := strings.Contains(src, "if fromTime != nil && ts < fromNs { continue } if toTime != nil && ts >= toNs { continue }")
 		where := c08At(c08Exec, f, tr)
 		switch {
